@@ -354,7 +354,7 @@ Lemma eject_only_if_room_l c x d y :
   y = x /\ (f x fS d = EJECTING \/ f x fS d = BL) /\
   (f x fTG d <> PF ->
      isdev c (f x fTG d) = true /\
-     Z.of_nat (length (inc x (f x fTG d))) < cap c (f x fTG d) - f x fC (f x fTG d)).
+     Z.of_nat (length (others d (inc x (f x fTG d)))) < cap c (f x fTG d) - f x fC (f x fTG d)).
 Proof.
   cbn [step]. unfold guard. intros H. split_ifs H; inversion H; subst y; clear H;
     apply negb_false_iff in E; apply andb_true_iff in E as [_ E]; apply orb_true_iff in E;
